@@ -412,3 +412,20 @@ def r12(ctx, R):
     R.check(len(pad) == 1 and last == [(f'{pad[0]}[-1]', f'{spec}[-1]')], 'mesh_to_mesh_fft.prolong :: the last entry of the padded spectrum takes the last coarse entry', w, 'padded[-1] = rfft(coarse)[-1]', last)
     rets = [f[1] for f in fs if f[0] == 'return']
     R.check(len(rets) == 1 and rets[0] == 'np.fft.irfft(_v1) * self.ratio' or (len(rets) == 1 and re.fullmatch(r'np\.fft\.irfft\(\w+\) \* self\.ratio', rets[0]) is not None), 'mesh_to_mesh_fft.prolong :: back transform scaled by the grid ratio', w, 'np.fft.irfft(fine_hat) * self.ratio', rets)
+
+
+@rule('C11', 'C11.R13', 'the tensor-product transfer has one factor PER DIMENSION: the loop that builds the 1-d operators and the loops that multiply them up run over all len(nvars) directions', floor=3)
+def r13(ctx, R):
+    repo = ctx.repo
+    rel = TC + 'TransferMesh.py'
+    fn = repo.func(rel, 'mesh_to_mesh.__init__')
+    w = f'{rel}:mesh_to_mesh.__init__'
+    R.fn(w)
+    loops = [l for l in ast.walk(fn) if isinstance(l, ast.For) and any(isinstance(c, ast.Call) and isinstance(c.func, ast.Attribute) and c.func.attr in ('append', 'kron') and ('space' in ast.unparse(c).lower()) for c in ast.walk(l))]
+    build = [l for l in loops if any(isinstance(c, ast.Call) and isinstance(c.func, ast.Attribute) and c.func.attr == 'append' for c in ast.walk(l))]
+    mult = [l for l in loops if l not in build]
+    R.check(len(build) == 1 and ast.unparse(build[0].iter) == 'range(len(self.fine_prob.nvars))', 'mesh_to_mesh.__init__ :: one 1-d interpolation / restriction matrix per direction', w, 'for i in range(len(self.fine_prob.nvars))', [ast.unparse(l.iter) for l in build])
+    for l in mult:
+        R.check(re.fullmatch(r'range\(1, len\((Pspace|Rspace|self\.fine_prob\.nvars)\)\)', ast.unparse(l.iter)) is not None, 'mesh_to_mesh.__init__ :: the Kronecker product takes in every remaining direction', w, 'for i in range(1, len(Pspace))', ast.unparse(l.iter))
+    if len(mult) < 2:
+        raise AnalysisError(f'C11.R13: expected the two Kronecker accumulation loops, found {len(mult)}')
